@@ -33,7 +33,9 @@ Ints == {0, -1, 2147483647, -999999999}
 
 CONSTANT Records       \* kind -> set of records that can be written to a file of that kind
 Kinds == DOMAIN Records
-Apis == {"struct", "fields"}
+(* "struct2" / "fields2": the same two API pairs with another column layout - a 10-byte and an 11-byte column name, the
+   string column last *)
+Apis == {"struct", "fields", "struct2", "fields2"}
 
 VARIABLES kind, api, file, wstate, rrow, rstate, out, nenc
 vars == <<kind, api, file, wstate, rrow, rstate, out, nenc>>
@@ -44,7 +46,7 @@ Init == /\ kind = "none" /\ api = "none" /\ file = <<>> /\ wstate = "none" /\ rr
 Create(k, a) == /\ wstate = "none" /\ kind' = k /\ api' = a /\ wstate' = "open"
                 /\ UNCHANGED <<file, rrow, rstate, out, nenc>>
 Encode(r) == /\ wstate = "open" /\ nenc < MaxRecs /\ r \in Records[kind]
-             /\ (r.g = NoGeom => api = "fields")                 \* a nil geometry can only be passed through EncodeFields
+             /\ (r.g = NoGeom => api \in {"fields", "fields2"})                 \* a nil geometry can only be passed through EncodeFields
              /\ file' = Append(file, Stored(r)) /\ nenc' = nenc + 1
              /\ UNCHANGED <<kind, api, wstate, rrow, rstate, out>>
 CloseW == /\ wstate = "open" /\ wstate' = "closed" /\ UNCHANGED <<kind, api, file, rrow, rstate, out, nenc>>
